@@ -441,6 +441,13 @@ pub mod rec {
         pub a: Tree<u8>,
         pub b: Tree<u32>,
     }
+    /// the same recursive enum reached several times
+    #[derive(TypeInfo)]
+    pub struct Forest {
+        pub a: Tree<u8>,
+        pub b: Tree<u8>,
+        pub c: (Tree<u8>, Tree<u8>),
+    }
     #[derive(TypeInfo)]
     pub struct MutA {
         pub b: Vec<MutB>,
@@ -632,6 +639,7 @@ pub fn all() -> Vec<(&'static str, PortableRegistry)> {
         ("compact_as", reg_of::<compact_as::All>()),
         ("rec", reg_of::<rec::Rec>()),
         ("tree", reg_of::<rec::UsesTree>()),
+        ("forest", reg_of::<rec::Forest>()),
         ("mutual", reg_of::<rec::MutA>()),
         ("assoc_skip", reg_of::<assoc::UsesHdr>()),
         ("assoc_same", reg_of::<assoc::UsesHdrSame>()),
